@@ -1,4 +1,4 @@
-"""C02 — Pool worker count is exact and bounded."""
+"""C02 — Joining a task returns that task's own result once it finishes."""
 from .. import poolcases
 
 ID = "C02"
@@ -146,3 +146,9 @@ def extra(tier, rng, build_cache, known):
         else:
             ok += 1
     return {"info": {"forced_schedule_runs": len(cases), "forced_schedule_prompt": ok}, "violations": viol}
+
+
+PINNED = ['C02_refuted_result_in_stealing_pool', 'C02_no_lost_wakeup', 'C02_prompt', 'C02_own_result_protocol', 'C02_woken_means_result', 'C02_refuted_old_protocol', 'C02_single_pool', 'C02_finished_task_never_times_out', 'C02_timeout_only_without_result', 'C02_join_finished_returns_own', 'C02_join_timeout_only_if_unfinished', 'C02_join_expired_deadline_still_returns', 'C02_join_result_handed_out_once']
+LEVEL_TEXT = "Three layers. (1) Pool model: theorem over ALL well-formed single-pool histories that every wait/take returns the task's own outcome (value or panic message), or the cancel/stop error where that applies, hands a result out once and reports 'no result' only when there is none. (2) The wait/notify protocol of wait_task_result against try_run's insert+notify as a small-step model, one step per access to the shared maps: for EVERY interleaving of waiter, completer and timeout (finite reachable set computed and lifted to all schedules) no lost wake-up, promptness (once the task completed an unreturned waiter can proceed without its timeout), a result only after it was produced and once, a woken waiter finds the result, and a task that finished before the wait began never yields a timeout whatever the wait time; the protocol before the repair is refuted with the 4-step schedule. (3) JoinHandle deadline arithmetic: a finished task's join returns its own outcome for every deadline including zero and expired ones, a timeout only if the task had not finished by the deadline, the result is handed out once. With two loops/pools the property is REFUTED (result stored in the stealing pool), a recorded finding. Tied to /repo by pool histories compared in Coq, by the forced schedule through the pause point in wait_task_result (real threads: completion between check and registration), and by real EventLoops/JoinHandle joins with zero/past/now/soon/far/unlimited deadlines."
+LEVEL_NOTE = "Trusted: Coq kernel + vm_compute; hand transcription of co_pool/mod.rs, task.rs and the parts of scheduler.rs it uses (Sched/Pool.v over Sched/Sched.v, Coroutine/Co.v, Queue/OWS.v), validated on the sampled histories only; one scheduling thread at a time (the pool's scheduling half is !Sync), virtual clock (hooks H1/H2), DashMap/DashSet as association lists, process-global task/coroutine queues and cancel sets modelled as shared state of all pools. The single-pool theorems assume wf_pool1: ONE pool with min_size 0, keep_alive_time 0, max_size >= 1, operations naming submitted tasks, task bodies that keep the coroutine API contract (no self-cancel, syscall states well bracketed), clock steps not below the model clock; the evidence counts how many generated histories satisfy it (tag wf_pool1). Histories with two pools, or with keep-alive/min-size (keepalive_stop family), are covered by the correspondence and the oracle only. No axioms (every theorem closed under the global context)."
+TECHNIQUE = 'Coq proof (simulation invariant over all histories of a Gallina pool model; finite-state closure lifted to all schedules for the wait/notify and signal protocols) + differential correspondence inside Coq + forced real-thread schedules through cfg-guarded pause points'
